@@ -53,6 +53,65 @@ def strip_clippy(w):
     w.lines = keep
 
 
+CANONICAL_PARAMS = {
+    "signed_shift": ["term", "cutoff", "amount"], "unsigned_shift": ["term", "cutoff", "amount"],
+    "open": ["term_to_open", "index_to_replace", "term_to_insert", "shift_amount"],
+    "free_variables": ["term", "cutoff", "variables"], "is_value": ["term"], "step": ["term"], "evaluate": ["term"],
+    "reassociate_applications": ["acc", "term"], "reassociate_products_and_quotients": ["acc", "term"],
+    "reassociate_sums_and_differences": ["acc", "term"], "span": None, "error_term": ["tokens", "position", "expectation"],
+    "resolve_variables": ["source_path", "source_contents", "term", "depth", "context", "errors"],
+    "parse": ["source_path", "source_contents", "tokens", "context"],
+}
+
+
+def canonical_params(w):
+    """R20: the sidecars name the parameters of a function under contract; if the code has renamed one, the woven
+    copy is alpha-renamed back (whole words, only when the canonical name is not otherwise used in the function)."""
+    want = CANONICAL_PARAMS.get(w.name) or (["cache", "tokens", "start"] if w.name.startswith("parse_") else None)
+    if not want:
+        return
+    h = w.header_end()
+    head = " ".join(l.strip() for l in w.lines[: h + 1])
+    a = head.find("(")
+    depth, b = 0, None
+    for k in range(a, len(head)):
+        depth += head[k] in "(<[" 
+        depth -= head[k] in ")>]"
+        if head[k] == "-" and head[k + 1 : k + 2] == ">":
+            depth += 1          # the `>` of `->` is not a closing bracket
+        if depth == 0:
+            b = k
+            break
+    if b is None:
+        raise LostAnchor(f"{w.src.rel} fn {w.name}: cannot parse the parameter list")
+    parts, depth, cur = [], 0, ""
+    for ch in head[a + 1 : b]:
+        depth += ch in "(<["
+        depth -= ch in ")>]"
+        if ch == "," and depth == 0:
+            parts.append(cur); cur = ""
+        else:
+            cur += ch
+    if cur.strip():
+        parts.append(cur)
+    have = [re.sub(r"^mut ", "", p.split(":")[0].strip()) for p in parts]
+    if len(have) != len(want):
+        raise LostAnchor(f"{w.src.rel} fn {w.name}: {len(have)} parameters, the sidecar expects {len(want)}")
+    for actual, canon in zip(have, want):
+        if actual == canon:
+            continue
+        if any(re.search(r"\b%s\b" % re.escape(canon), l.split("//")[0]) for l in w.lines):
+            raise LostAnchor(f"{w.src.rel} fn {w.name}: parameter `{actual}` cannot be renamed back to `{canon}` (that name is used otherwise)")
+        n = 0
+        for i, l in enumerate(w.lines):
+            new = re.sub(r"\b%s\b" % re.escape(actual), canon, l)
+            if new != l:
+                w.lines[i] = new
+                n += 1
+        w.log["rewrites"].append({"rule": "R20-alpha-rename", "site": f"{w.src.rel} fn {w.name}", "before": actual, "after": canon, "note": f"parameter renamed back to the name the sidecar uses ({n} lines); alpha-renaming, the canonical name does not occur otherwise"})
+
+
+
 def hole_arm_live(w, head_regex, hint, rec_names):
     """Make a `Unifier(..) =>` arm verifiable for RESOLVED holes:
     R9  `{ subterm.borrow().clone() }` -> `hole_content(subterm)` (assumed contract: the frozen cell content);
@@ -135,6 +194,7 @@ def map_or_else_to_match(w, head_regex):
 
 
 def weave_signed_shift(w, sc):
+    canonical_params(w)
     w.contract(sc["signed_shift.contract"], ret="r")
     w.body_first(sc["signed_shift.first"])
     # the name of the vector being built is taken from the code, not fixed in the sidecar
@@ -162,6 +222,7 @@ def weave_signed_shift(w, sc):
 
 
 def weave_unsigned_shift(w, sc):
+    canonical_params(w)
     w.contract(sc["unsigned_shift.contract"], ret="r")
 
 
@@ -222,6 +283,7 @@ def map_collect_to_loop(w, first_regex, iter_name, invariant, body_pre=None, ele
 
 
 def weave_open(w, sc):
+    canonical_params(w)
     w.contract(sc["open.contract"], ret="r")
     w.body_first(sc["open.first"])
     map_or_else_to_match(w, r"^        Unifier\(subterm, subterm_shift\) => \{$")
@@ -238,6 +300,7 @@ def weave_open(w, sc):
 
 
 def weave_free_variables(w, sc):
+    canonical_params(w)
     w.contract(sc["free_variables.contract"])
     w.body_first(sc["free_variables.first"])
     hole_arm_live(w, r"^        Variant::Unifier\(subterm, subterm_shift\) => \{$", sc["free_variables.hole"], ["free_variables", "unsigned_shift"])
@@ -381,10 +444,12 @@ def rewrite_bigint_ops(w):
 
 
 def weave_is_value(w, sc):
+    canonical_params(w)
     w.contract(sc["is_value.contract"], ret="r")
 
 
 def weave_step(w, sc, strict=False):
+    canonical_params(w)
     w.contract(sc["step_strict.contract" if strict else "step.contract"], ret="r")
     w.body_first(sc["step_strict.first" if strict else "step.first"])
     # the hole arm: R10 (`.map(closure)` on the hole read as a match), then R9/R11
@@ -427,6 +492,17 @@ def weave_step(w, sc, strict=False):
 
 
 def weave_evaluate(w, sc):
+    canonical_params(w)
+    # R20: the local copy of the term that the loop updates is called `term` in the sidecar (it shadows the parameter,
+    # as in the original text); a differently named local is alpha-renamed in the woven copy
+    i = w.find(r"^    let mut (\w+) = term\.clone\(\);$")
+    cur = re.match(r"^    let mut (\w+) = ", w.lines[i]).group(1)
+    if cur != "term":
+        if any(re.search(r"\bterm\b", l.split("//")[0]) for l in w.lines[i + 1 :]):
+            raise LostAnchor(f"{w._where(i)}: the local `{cur}` cannot be renamed to `term`: the parameter is still used below")
+        for k in range(i, len(w.lines)):
+            w.lines[k] = re.sub(r"\b%s\b" % re.escape(cur), "term", w.lines[k]) if k > i else "    let mut term = term.clone();"
+        w.log["rewrites"].append({"rule": "R20-alpha-rename", "site": f"{w.src.rel} fn evaluate", "before": cur, "after": "term", "note": "local renamed to the name the sidecar uses (it shadows the parameter, which is not used below)"})
     w.contract(sc["evaluate.contract"], ret="r", attrs="#[verifier::exec_allows_no_decreases_clause]")
     w.before(r"^    let mut term = term\.clone\(\);$", sc["evaluate.pre"])
     w.after(r"^    let mut term = term\.clone\(\);$", sc["evaluate.cloned"])
@@ -436,7 +512,20 @@ def weave_evaluate(w, sc):
     w.lines[i:i] = sc["evaluate.loop.body.pre"].replace("$STEPPED", stepped).rstrip("\n").split("\n")
     w.after(r"^        term = \w+;$", sc["evaluate.loop.body.post"])
     w.before(r"^    if !?is_value\(&\w+\) \{$", sc["evaluate.after"])
-    w.rewrite_regex("R5-stuck-message", r'format!\("Evaluation of \{\} is stuck!", term\.to_string\(\)\.code_str\(\)\)', "stuck_message(&term)", expect=1, note="message text is not part of C02; Display/format! are outside the verifier's reach")
+    # R5: the `message: format!(..)` field (one line or wrapped by rustfmt) -> `message: stuck_message(&term),`
+    i = w.find(r"^\s*message: format!\(")
+    depth, j = 0, None
+    for k in range(i, len(w.lines)):
+        code = re.sub(r'"[^"]*"', '""', w.lines[k])
+        depth += sum(code.count(c) for c in "([{") - sum(code.count(c) for c in ")]}")
+        if depth == 0 and code.rstrip().endswith(","):
+            j = k
+            break
+    text = " ".join(l.strip() for l in w.lines[i : (j or i) + 1])
+    if j is None or "is stuck!" not in text or not re.search(r"\bterm\.to_string\(\)\.code_str\(\)", text):
+        raise LostAnchor(f"{w._where(i)}: rule R5-stuck-message: the message of the stuck error is not as expected")
+    ind = re.match(r"^\s*", w.lines[i]).group(0)
+    w.rewrite_lines("R5-stuck-message", i, j, [ind + "message: stuck_message(&term),"], note="message text is not part of C02; Display/format! are outside the verifier's reach")
 
 
 class Build:
@@ -604,6 +693,7 @@ def expr_closure_contract(w, regex, head, nth=1):
 
 
 def weave_reassoc(w, sc, key):
+    canonical_params(w)
     w.contract(sc[key + ".contract"], ret="r")
     w.body_first(sc[key + ".first"])
     # closures inside Option::map need their own contract; an equivalent `match` needs none
@@ -747,10 +837,10 @@ def weave_macro(w, sc):
     scanning macros get loop invariants, for which their body is wrapped in `verus_exec_expr!` (annotation)."""
     name = w.name
     if name == "cache_check":
-        w.rewrite_regex("R14-cache", r"\$cache\.get\(&cache_key\)", "cache_get($cache, &cache_key)", expect=1, note="HashMap::get on the memo table -> stub with the same meaning over the uninterpreted cache_lookup")
-        w.rewrite_regex("R14-cache", r"return result\.clone\(\);", "return result;", expect=1, note="cache_get already returns the cloned entry")
+        w.rewrite_regex("R14-cache", r"\$cache\.get\(&(\w+)\)", r"cache_get($cache, &\1)", expect=1, note="HashMap::get on the memo table -> stub with the same meaning over the uninterpreted cache_lookup")
+        w.rewrite_regex("R14-cache", r"return (\w+)\.clone\(\);", r"return \1;", expect=1, note="cache_get already returns the cloned entry")
     elif name == "cache_return":
-        w.rewrite_regex("R14-cache", r"\$cache\.insert\(cache_key, value\.clone\(\)\);", "cache_put($cache, cache_key, &value);", expect=1, note="HashMap::insert of a clone -> stub")
+        w.rewrite_regex("R14-cache", r"\$cache\.insert\((\w+), (\w+)\.clone\(\)\);", r"cache_put($cache, \1, &\2);", expect=1, note="HashMap::insert of a clone -> stub")
     elif name in ("expect_token_0", "expect_token_1"):
         if name == "expect_token_0":
             w.rewrite_regex("R13-match-place", r"match tokens\[next\]\.variant \{", "match &tokens[next].variant {", expect=1, note="Verus 0.2026.09.13 panics (ast_to_sst stms0) on a guarded match whose scrutinee is an index place; matching on a reference is equivalent for patterns without bindings")
@@ -817,6 +907,7 @@ def mark_positions(w, sc):
 def weave_parse_prefix(w, sc):
     """`parse`: keep everything up to and including the [tag:error_check] block; cut the rest (R16); state what
     holds at the cut as an assertion."""
+    canonical_params(w)
     unchain_let(w)
     i = w.find(r"^    let mut (\w+) = Cache::new\(\);$")
     cache = re.match(r"^    let mut (\w+) = ", w.lines[i]).group(1)
@@ -919,6 +1010,7 @@ def unchain_let(w):
 
 
 def weave_parse_fn(w, nt, sc):
+    canonical_params(w)
     strip_clippy(w)
     unchain_let(w)
     drop_format_args(w)
@@ -1170,6 +1262,7 @@ def enumerate_to_index(w, a):
 
 
 def weave_resolve(w, sc):
+    canonical_params(w)
     strip_clippy(w)
     unchain_let(w)
     w.rewrite_regex("R2-type-substitution", r"context: &mut HashMap<&'a str, usize>,", "context: &mut Context<'a>,", expect=1, note="the name -> depth map is modelled by stubs with HashMap's method names")
@@ -1370,6 +1463,7 @@ CLASS_OF = {"reassociate_applications": "Class::Apps", "reassociate_products_and
 
 
 def weave_parse_full(w, sc, flavor):
+    canonical_params(w)
     strip_clippy(w)
     unchain_let(w)
     if w.lines[0].startswith("pub fn parse<"):
@@ -1388,45 +1482,90 @@ def weave_parse_full(w, sc, flavor):
     k = w.find(r"^    if !\w+\.is_empty\(\) \{$")
     e = w.block_end(k)
     w.lines[e + 1 : e + 1] = sc["parse.checked." + flavor].replace("$TERM", term).replace("$NEXT", nxt).replace("$TOKENS", toks).rstrip("\n").split("\n")
-    # the three passes: nested call -> three lets (R8), in the order the code applies them
-    i = w.find(r"^    let (\w+) = reassociate_\w+\($", start=e)
-    j = statement_end(w, i)
-    flat = "".join(l.strip() for l in w.lines[i : j + 1])
-    m = re.match(r"^let (\w+) = (.*);$", flat)
-    if not m:
-        raise LostAnchor(f"{w._where(i)}: the re-association statement is not as expected")
-    p3, expr = m.group(1), m.group(2)
-    fns = []     # outermost first
-    while True:
-        mm = re.match(r"^(reassociate_\w+)\(None,\s*&(.*?),?\)$", expr)
-        if not mm:
-            break
-        fns.append(mm.group(1))
-        expr = mm.group(2)
-    if expr != term or not fns or any(f not in CLASS_OF for f in fns):
-        raise LostAnchor(f"{w._where(i)}: the nested re-association calls are not as expected")
-    fns.reverse()   # innermost (first applied) first
-    names = [f"pass_{n + 1}" for n in range(len(fns) - 1)] + [p3]
-    ins = [term] + names
+    # the re-association passes: one statement with nested calls, or several statements -- in either case a chain
+    # term -> .. -> the tree handed on; nested calls are bound to locals (R8), a proof hint follows each call
+    stmts = [k for k in range(e + 1, len(w.lines)) if re.match(r"^    let (\w+) = reassociate_\w+\(", w.lines[k])]
+    if not stmts:
+        raise LostAnchor(f"{w.src.rel} fn parse: no re-association statement found after [tag:error_check]")
     hp = lambda c, a, o: sc["parse.pass"].replace("$C", CLASS_OF[c]).replace("$IN", a).replace("$OUT", o).rstrip("\n").split("\n")
-    new_lines = []
-    for n, f in enumerate(fns):
-        new_lines += [f"    let {names[n]} = {f}(None, &{ins[n]});"] + hp(f, ins[n], names[n])
-    new_lines += sc["parse.passes"].replace("$P3", p3).rstrip("\n").split("\n")
-    w.rewrite_lines("R8-hoist-argument", i, j, new_lines, note="nested call arguments bound to locals, innermost first (same evaluation order); proof hints follow each call")
+    fns, names, prev = [], [], term
+    for i in reversed(stmts):       # bottom-up so that the indices of the earlier statements stay valid
+        pass
+    chain = []                      # [(statement first line, last line, out name, [fn outermost first], innermost argument)]
+    for i in stmts:
+        j = statement_end(w, i)
+        flat = "".join(l.strip() for l in w.lines[i : j + 1])
+        m = re.match(r"^let (\w+) = (.*);$", flat)
+        if not m:
+            raise LostAnchor(f"{w._where(i)}: the re-association statement is not as expected")
+        out, expr = m.group(1), m.group(2)
+        fs = []
+        while True:
+            mm = re.match(r"^(reassociate_\w+)\(None,\s*&(.*?),?\)$", expr)
+            if not mm:
+                break
+            fs.append(mm.group(1))
+            expr = mm.group(2)
+        if not fs or any(f not in CLASS_OF for f in fs) or not re.match(r"^\w+$", expr):
+            raise LostAnchor(f"{w._where(i)}: the nested re-association calls are not as expected")
+        chain.append((i, j, out, fs, expr))
+    expect = term
+    for (_, _, out, fs, inner) in chain:
+        if inner != expect:
+            raise LostAnchor(f"{w.src.rel} fn parse: the re-association statements do not form a chain starting at `{term}`")
+        expect = out
+    p3 = chain[-1][2]
+    n_pass = 0
+    for (i, j, out, fs, inner) in reversed(chain):
+        pass
+    # emit, bottom-up
+    total = sum(len(fs) for (_, _, _, fs, _) in chain)
+    counter = total
+    emitted = {}
+    for (i, j, out, fs, inner) in reversed(chain):
+        order = list(reversed(fs))                  # innermost (first applied) first
+        outs = [f"pass_{counter - len(order) + n + 1}" for n in range(len(order) - 1)] + [out]
+        ins_ = [inner] + outs[:-1]
+        lines = []
+        for n, f in enumerate(order):
+            lines += [f"    let {outs[n]} = {f}(None, &{ins_[n]});"] + hp(f, ins_[n], outs[n])
+        if (i, j, out, fs, inner) == chain[-1]:
+            lines += sc["parse.passes"].replace("$P3", p3).rstrip("\n").split("\n")
+        if len(order) > 1 or j > i:
+            w.rewrite_lines("R8-hoist-argument", i, j, lines, note="nested call arguments bound to locals, innermost first (same evaluation order); proof hints follow each call")
+        else:
+            w.lines[i : j + 1] = lines
+            w.log["annotations"].append({"fn": w.name, "kind": "proof-after", "anchor": "re-association call"})
+        emitted[i] = list(zip(order, outs))
+        counter -= len(order)
+    seq = [x for (i, _, _, _, _) in chain for x in emitted[i]]      # [(fn, out name)] in application order
+    fns = [f for f, _ in seq]
+    names = [o for _, o in seq]
     # the classes and intermediate trees named in the final assertion (a missing pass repeats the previous tree)
     while len(fns) < 3:
         fns.append(fns[-1]); names.append(names[-1])
     f1, f2, f3 = fns[:3]
     p1n, p2n = names[0], names[1]
-    # the initial context
-    i = w.find(r"^    let mut (\w+): HashMap<&'a str, usize> = (\w+)$")
-    cvar, src = re.match(r"^    let mut (\w+): HashMap<&'a str, usize> = (\w+)$", w.lines[i]).groups()
-    j = statement_end(w, i)
-    flat = "".join(l.strip() for l in w.lines[i + 1 : j + 1])
-    if flat != ".iter().enumerate().map(|(i, variable)| (*variable, i)).collect();":
-        raise LostAnchor(f"{w._where(i)}: construction of the initial context not as expected")
-    w.rewrite_lines("R19-initial-context", i, j, [f"    let mut {cvar}: Context<'a> = context_from_names({src});"], note="iterator chain collecting (name, index) pairs into a HashMap -> stub building the map name_i -> i")
+    # the initial context: the iterator chain, or the equivalent explicit loop
+    if w.count(r"^    let mut (\w+): HashMap<&'a str, usize> = (\w+)$"):
+        i = w.find(r"^    let mut (\w+): HashMap<&'a str, usize> = (\w+)$")
+        cvar, src = re.match(r"^    let mut (\w+): HashMap<&'a str, usize> = (\w+)$", w.lines[i]).groups()
+        j = statement_end(w, i)
+        flat = "".join(l.strip() for l in w.lines[i + 1 : j + 1])
+        if flat != ".iter().enumerate().map(|(i, variable)| (*variable, i)).collect();":
+            raise LostAnchor(f"{w._where(i)}: construction of the initial context not as expected")
+    else:
+        i = w.find(r"^    let mut (\w+)(: HashMap<&'a str, usize>)? = HashMap::new\(\);$")
+        cvar = re.match(r"^    let mut (\w+)", w.lines[i]).group(1)
+        j = i + 1
+        while w.lines[j].strip() == "" or w.lines[j].strip().startswith("//"):
+            j += 1
+        mf = re.match(r"^    for \((\w+), (\w+)\) in (\w+)\.iter\(\)\.enumerate\(\) \{$", w.lines[j])
+        if not (mf and w.lines[j + 1].strip() == f"{cvar}.insert(*{mf.group(2)}, {mf.group(1)});" and w.lines[j + 2] == "    }"):
+            raise LostAnchor(f"{w._where(i)}: construction of the initial context not as expected")
+        src = mf.group(3)
+        j = j + 2
+    w.rewrite_lines("R19-initial-context", i, j, [f"    let mut {cvar}: Context<'a> = context_from_names({src});"], note="(name, index) pairs of the `context` slice collected into a HashMap (iterator chain or explicit loop) -> stub building the map name_i -> i")
     # the end
     i = w.find(r"^    let (\w+) = resolve_variables\($")
     resolved = re.match(r"^    let (\w+) = ", w.lines[i]).group(1)
@@ -1436,11 +1575,16 @@ def weave_parse_full(w, sc, flavor):
     if not ma:
         raise LostAnchor(f"{w._where(i)}: the call of resolve_variables is not as expected")
     arg, errs = ma.group(1), ma.group(3)
-    # the accepting exit: the last `if .. {` of the function whose then-branch is `Ok(..)`
-    ks = [k for k in range(ce + 1, len(w.lines) - 1) if re.match(r"^    if .* \{$", w.lines[k]) and re.match(r"^        Ok\(", w.lines[k + 1])]
-    if not ks:
-        raise LostAnchor(f"{w.src.rel} fn parse: the accepting exit `if .. {{ Ok(..)` not found")
-    k = ks[-1]
+    # the accepting exit: the last `Ok(..)` of the function -- either the then-branch of an `if .. {` (the hint goes
+    # before the `if`) or the tail expression (the hint goes right before it)
+    oks = [k for k in range(ce + 1, len(w.lines)) if re.match(r"^\s+Ok\(", w.lines[k])]
+    if not oks:
+        raise LostAnchor(f"{w.src.rel} fn parse: the accepting exit `Ok(..)` not found")
+    k = oks[-1]
+    if re.match(r"^        Ok\(", w.lines[k]) and re.match(r"^    if .* \{$", w.lines[k - 1]):
+        k = k - 1
+    elif not re.match(r"^    Ok\(", w.lines[k]):
+        raise LostAnchor(f"{w._where(k)}: the accepting exit is not in a recognised position")
     fill = lambda t: t.replace("$ERRORS", errs).replace("$TOKENS", toks).replace("$TERM", term).replace("$P1", p1n).replace("$P2", p2n).replace("$P3", p3).replace("$ARG", arg).replace("$RESOLVED", resolved).replace("$C1", CLASS_OF[f1]).replace("$C2", CLASS_OF[f2]).replace("$C3", CLASS_OF[f3])
     w.lines[k:k] = fill(sc["parse.end." + flavor]).rstrip("\n").split("\n")
     w.lines[i:i] = fill(sc["parse.handover." + flavor]).rstrip("\n").split("\n")
